@@ -168,6 +168,17 @@ func (rw *Rewriter) Visit(node sql.Node) (w sql.Visitor, n sql.Node, err error) 
 	switch n := retNode.(type) {
 	case *sql.ReturningClause:
 		rw.returning = true
+	case *sql.WithClause:
+		// sql.Walk does not descend into common table expressions, so visit
+		// their SELECT bodies here.
+		for _, cte := range n.CTEs {
+			if cte == nil || cte.Select == nil {
+				continue
+			}
+			if _, err := sql.Walk(rw, cte.Select); err != nil {
+				return nil, nil, err
+			}
+		}
 	case *sql.OrderingTerm:
 		// NO random() rewriting past this point.
 		rw.orderedBy = true
